@@ -44,6 +44,9 @@ pub struct RecSm {
     pub gate: tokio::sync::Semaphore,
     pub waiting: AtomicBool,
     pub done: AtomicU64,
+    /// run the inner (file IO) apply on a helper thread with its own runtime and join it synchronously, so
+    /// that the caller's runtime never gets to poll other tasks in the middle of apply_chunk
+    pub sync_inner: AtomicBool,
 }
 
 impl std::fmt::Debug for RecSm {
@@ -61,6 +64,7 @@ impl RecSm {
             gate: tokio::sync::Semaphore::new(0),
             waiting: AtomicBool::new(false),
             done: AtomicU64::new(0),
+            sync_inner: AtomicBool::new(false),
         }
     }
 }
@@ -98,6 +102,17 @@ impl StateMachine for RecSm {
         }
         let _g = DoneGuard(&self.done);
         self.chunks.lock().unwrap().push(chunk.iter().map(|e| (e.index, e.command.clone())).collect());
+        if self.sync_inner.load(Ordering::SeqCst) {
+            let inner = &self.inner;
+            return std::thread::scope(|sc| {
+                sc.spawn(|| {
+                    let rt = tokio::runtime::Builder::new_current_thread().enable_all().build().unwrap();
+                    rt.block_on(inner.apply_chunk(chunk))
+                })
+                .join()
+                .unwrap_or_else(|_| Err(Error::Fatal("state machine panicked".into())))
+            });
+        }
         self.inner.apply_chunk(chunk).await
     }
     fn len(&self) -> usize {
